@@ -37,7 +37,12 @@ worker_init = sweepcheck.worker_init
 
 
 def gen_cases(tier, seed):
-    return sweepcheck.gen_cases(tier, seed, PLANS_Q, PLANS_T, ["defer"])
+    cases = sweepcheck.gen_cases(tier, seed, PLANS_Q, PLANS_T, ["defer"])
+    # a suspension (or a second, hard request) arriving between the deferred request and the checkpoint it waits for
+    for p in (PLANS_Q if tier == "quick" else PLANS_T):
+        cases.append({"plan": p, "kind": "defer", "kind2": "suspend", "pairs": 14 if tier == "quick" else 40, "seed": seed,
+                      "spec_extra": {}})
+    return cases
 
 
 def judge(ex, ref, case):
@@ -62,7 +67,12 @@ def judge(ex, ref, case):
         counters["paused_at_checkpoint"] = 1
         # the call must end paused (RunEngineInterrupted), with no message after the checkpoint
         r = log[end_call] if end_call < len(log) else None
-        later = [e[1].command for e in log[cp + 1:end_call] if e[0] == "msg"]
+        # (a suspension that interrupts the checkpoint while it honours the request runs its helper messages and the
+        #  checkpoint is executed again: those are not plan messages "after the checkpoint")
+        cp_msg = log[cp][1]
+        helper = ("_start_suspender", "rewindable", "wait_for", "_resume_from_suspender")
+        later = [e[1].command for e in log[cp + 1:end_call] if e[0] == "msg" and e[1] is not cp_msg
+                 and not (e[1].command in helper or (e[1].command == "null" and e[1].args and str(e[1].args[0])[:3] in ("pre", "pos")))]
         if later:
             problems.append(("message-executed-after-the-checkpoint", f"{later[:4]} ran after the checkpoint before pausing"))
         if r is None or r[0] != "exc" or not isinstance(r[2], RunEngineInterrupted):
